@@ -53,6 +53,19 @@ Proof. exact one_liner_reads_back. Qed.
    break of any kind (LF, CR, NEL, LS, PS) and no byte order mark, whatever the names, values and paths contain *)
 Theorem C17_one_liner_inline : forall c, Forall (fun x => needs_u_escape x = false) (one_liner c).
 Proof. exact one_liner_inline. Qed.
+(* the generators (create, update --convert) put into the block header only what differs from the defaults of the format
+   (TestCaseConfig::diff); the parser fills in exactly those defaults again (with_defaults_from): nothing is lost by leaving
+   out what equals the default -- for every configuration and every default without environment (the format defaults) *)
+Theorem C17_left_out_defaults_come_back : forall c d, y_env d = [] -> ywith_defaults (ydiff c d) d = ywith_defaults c d.
+Proof. exact ydiff_restores. Qed.
+Example C17_left_out_instance :      (* stdout and skip code 80 equal the default and are left out; the timeout is written *)
+  let d := mkY (Some 0) None None None (Some 80%Z) None None [] in
+  let c := mkY (Some 0) None (Some (3, 0)) None (Some 80%Z) None None [([65], [49])] in
+  ydiff c d = mkY None None (Some (3, 0)) None None None None [([65], [49])]
+  /\ gen_config_suffix c d = 32 :: one_liner (mkY None None (Some (3, 0)) None None None None [([65], [49])])
+  /\ gen_config_suffix d d = [].
+Proof. repeat split; vm_compute; reflexivity. Qed.
+
 Example C17_one_liner_instance :
   let c := mkY (Some 2) None (Some (86400, 500000000)) (Some false) (Some (-3)%Z) None (Some (5, 0, Some [47; 116; 32; 125])) [([65], [44; 32; 125])] in
   wf_cfg c /\ read_one_liner (one_liner c) = Some c
@@ -81,3 +94,4 @@ Print Assumptions C17_environment_reads_back.
 Print Assumptions C17_duration_round_trip.
 Print Assumptions C17_one_liner_reads_back.
 Print Assumptions C17_one_liner_inline.
+Print Assumptions C17_left_out_defaults_come_back.
